@@ -151,7 +151,9 @@ func (d *Decoder) readPayload() (payload []byte, n int, err error) {
 		if err != nil {
 			return nil, n, fmt.Errorf("error reading claimed uncompressed size varint: %w", err)
 		}
-		if claimedUncompressedSize <= 0 {
+		// Zero means "not compressed". A negative claimed size is invalid and is
+		// rejected by decompress (it is below every threshold).
+		if claimedUncompressedSize == 0 {
 			if actualUncompressedSize := buf.Len(); actualUncompressedSize > d.compressionThreshold {
 				return nil, n, fmt.Errorf("actual uncompressed size %d is greater than threshold %d",
 					actualUncompressedSize, d.compressionThreshold)
